@@ -139,8 +139,22 @@ func runC01(c *Ctx) {
 				spec.certs = nil
 			}
 		}
+		if i%16 == 9 {
+			// a table whose last entry was left unpadded by its producer: the directory Size is not a
+			// multiple of 8 (outside wf_image; Parse, the pre-image and Bytes() must still be the model's)
+			if len(spec.certs) == 0 {
+				spec.certs = [][]byte{randBytes(rng, 1+rng.Intn(120))}
+			}
+			spec.certUnpadded = true
+			if spec.trailing == 0 {
+				spec.trailing = 1 + rng.Intn(40)
+			}
+		}
 		im := spec.build(rng)
 		class := fmt.Sprintf("pe32plus=%v/sections=%d/table=%v", spec.plus, len(spec.sections), len(spec.certs) > 0)
+		if spec.certUnpadded {
+			class += "/unpadded"
+		}
 		ok, pre, info := c.evalPE("synthetic/"+class, im.bytes)
 		if !ok || len(info) == 0 || info[0] != "1" {
 			continue
